@@ -120,7 +120,8 @@ pub fn monitor_invocation(out : &mut Out, tr : &mut Tracker, inv : &Invocation, 
     {
         if let Some(name) = p.strip_prefix(&cache_prefix())
         {
-            if !coarse && name != cache_name_of(&n.content)
+            // C07 does not depend on the clock: checked under the coarse clock as well
+            if name != cache_name_of(&n.content)
             {
                 out.violation("C07:cache-entry-misnamed", format!("cache entry {} holds content whose hash is {}", name, cache_name_of(&n.content)), replay());
                 break;
@@ -675,6 +676,53 @@ pub fn histories(ctx : &Ctx, out : &mut Out)
 }
 
 
+
+/// Histories aimed at what the modification-time shortcut can get wrong: a two-target rule (or two rules) copying
+/// the leaves `a` and `b`, whose values are exchanged and put back between builds, so that files written in one
+/// tick travel through the cache and come back at paths whose remembered state carries the same time; an extra
+/// rule that a rules-file edit makes fail (and later repairs), cleans (all / one target) and repeated builds.
+pub fn swap_ops(r : &mut Rng) -> Vec<Op>
+{
+    let two_target = r.chance(1, 2);
+    let with_top = r.chance(1, 3);
+    let render = |bad : bool| -> Vec<u8>
+    {
+        let mk = |ts : Vec<&str>, ss : Vec<&str>, script : Vec<String>| RuleSpec{targets : ts.iter().map(|x| x.to_string()).collect(), sources : ss.iter().map(|x| x.to_string()).collect(), script : script, raw_command : None};
+        let mut rules = vec![];
+        if two_target { rules.push(mk(vec!["t1", "t2"], vec!["a", "b"], vec!["gen t1 @a".to_string(), "gen t2 @b".to_string()])); }
+        else { rules.push(mk(vec!["t1"], vec!["a"], vec!["gen t1 @a".to_string()])); rules.push(mk(vec!["t2"], vec!["b"], vec!["gen t2 @b".to_string()])); }
+        if with_top { rules.push(mk(vec!["top"], vec!["t1", "t2"], vec!["gen top @t1 =+ @t2".to_string()])); }
+        if bad { rules.push(mk(vec!["bad"], vec!["a"], vec!["fail".to_string()])); }
+        Scenario{rules : rules, split_tokens : false}.render().into_bytes()
+    };
+    let vals = ["1", "2", "3"];
+    let mut ops = vec![];
+    let mut bad = false;
+    ops.push(Op::Write(RULES_PATH.to_string(), render(bad)));
+    let mut cur = (0usize, 1usize);
+    let mut seen : Vec<(usize, usize)> = vec![cur];
+    ops.push(Op::Write("a".to_string(), vals[cur.0].as_bytes().to_vec()));
+    ops.push(Op::Write("b".to_string(), vals[cur.1].as_bytes().to_vec()));
+    ops.push(Op::Build(None));
+    for _ in 0..r.range(3, 7)
+    {
+        // new leaf values: exchange, go back to an earlier pair, or something new
+        let next = match r.below(5) { 0 | 1 => (cur.1, cur.0), 2 | 3 => *r.pick(&seen), _ => (r.below(3), r.below(3)) };
+        if next.0 != cur.0 { ops.push(Op::Write("a".to_string(), vals[next.0].as_bytes().to_vec())); }
+        if next.1 != cur.1 { ops.push(Op::Write("b".to_string(), vals[next.1].as_bytes().to_vec())); }
+        cur = next;
+        if !seen.contains(&cur) { seen.push(cur); }
+        if r.chance(1, 3) { bad = !bad; ops.push(Op::Write(RULES_PATH.to_string(), render(bad))); }
+        if r.chance(1, 4) { ops.push(Op::Clean(if r.chance(1, 2) { None } else { Some(r.pick(&["t1", "t2"]).to_string()) })); }
+        ops.push(Op::Build(if r.chance(1, 6) { Some(r.pick(&["t1", "t2"]).to_string()) } else { None }));
+        if r.chance(1, 5) { ops.push(Op::Build(None)); }
+    }
+    if bad { ops.push(Op::Write(RULES_PATH.to_string(), render(false))); }
+    ops.push(Op::Clean(None));
+    ops.push(Op::Build(None));
+    ops
+}
+
 /// C18: the modification-time shortcut never changes a result. Every history is run twice — as is, and
 /// with the file-state table erased before every build — under both clock models; verdicts and
 /// workspace contents after every build must agree. All runs are correspondence cases as well.
@@ -710,6 +758,24 @@ pub fn shortcut(ctx : &Ctx, out : &mut Out)
         let (ops, obs, _, ok_builds, results) = run_history(out, &mut r, &params, "c18");
         emit_case(out, coarse, params.t0, &ops, &obs, ok_builds > 0);
         paired(out, "c18", coarse, params.t0, &ops, Some(results));
+    }
+}
+
+/// exchanged and restored leaf values (see swap_ops), with all monitors, mostly under the coarse clock; paired runs
+/// (with / without the saved table) as in `shortcut`
+pub fn swap(ctx : &Ctx, out : &mut Out)
+{
+    let mut rng = Rng::new(ctx.seed).fork(1818);
+    let n_swap = if ctx.thorough { 3000 } else { 200 };
+    for i in 0..n_swap
+    {
+        let coarse = i % 4 != 3;
+        let mut r = rng.fork(1_000_000 + i as u64);
+        let ops = swap_ops(&mut r);
+        out.count(if coarse { "swap-histories:coarse" } else { "swap-histories:fine" });
+        let (obs, results) = run_fixed(out, "swap", coarse, 1_000_000, &ops, true, &Policy::Serial, true);
+        emit_case(out, coarse, 1_000_000, &ops, &obs, true);
+        paired(out, "swap", coarse, 1_000_000, &ops, Some(results));
     }
 }
 
